@@ -171,6 +171,12 @@ pub struct GenSpec {
     /// number of leading "free" random entries per instance column (readable by gates)
     pub inst_free: usize,
     pub plan_seed: u64,
+    /// extra, unqueried fixed column holding `tweak_val` at row 0 (used to derive a verifying key
+    /// that differs in one fixed cell only)
+    #[serde(default)]
+    pub tweak_col: bool,
+    #[serde(default)]
+    pub tweak_val: u64,
 }
 
 impl Default for GenSpec {
@@ -192,6 +198,8 @@ impl Default for GenSpec {
             n_junk: 0,
             inst_free: 2,
             plan_seed: 0,
+            tweak_col: false,
+            tweak_val: 0,
         }
     }
 }
@@ -745,6 +753,7 @@ pub struct GenConfig {
     pub any_enable: Vec<Option<Column<Fixed>>>,
     pub any_fixed_cols: Vec<Vec<Column<Fixed>>>,
     pub constant_col: Option<Column<Fixed>>,
+    pub tweak_col: Option<Column<Fixed>>,
 }
 
 #[derive(Clone, Debug)]
@@ -869,6 +878,7 @@ impl<F: PrimeField + FromUniformBytes<64>> Circuit<F> for GenCircuit {
             any_enable: vec![],
             any_fixed_cols: vec![],
             constant_col,
+            tweak_col: if spec.tweak_col { Some(meta.fixed_column()) } else { None },
         };
         for g in &spec.gates {
             // additive selectors must be complex (the library asserts it when converting selectors)
@@ -1037,6 +1047,9 @@ impl<F: PrimeField + FromUniformBytes<64>> Circuit<F> for GenCircuit {
             |mut region| {
                 let mut cells: BTreeMap<Cell, midnight_proofs::circuit::Cell> = BTreeMap::new();
                 let mut inst_ties: Vec<(midnight_proofs::circuit::Cell, usize, usize)> = vec![];
+                if let Some(tc) = cfg.tweak_col {
+                    region.assign_fixed(|| "tweak", tc, 0, || Value::known(small::<F>(spec.tweak_val)))?;
+                }
                 // plain fixed values
                 for ((c, r), v) in &plan.fixed_vals {
                     region.assign_fixed(|| "f", cfg.fixed[*c], *r, || Value::known(small::<F>(*v)))?;
